@@ -1,10 +1,14 @@
 (* C10 — calibration candidates map to the right parameters, inside their bounds.
    Only statements here; the model is Model/Decision.v, the proofs are Proofs/Decision.v and
-   Proofs/DecisionR.v.  All theorems quantify over every list of variables (any mix of scalar / vector,
+   Proofs/DecisionR.v; the description language, the generic walks and the object store are
+   Model/DecisionSrc.v (proofs: Proofs/DecisionSrc.v, Proofs/DecisionSrcR.v); `src_desc` is regenerated from
+   the current source by translator/c10.py on every run (Gen_C10.v).  All theorems quantify over every list of variables (any mix of scalar / vector,
    linear / logarithmic, shared / per-component boundaries) and every decision vector; the structural
    ones also over every element type A and every pair of functions log10 / 10**. *)
 From Coq Require Import List Bool Arith String QArith Reals Lra.
 From PyxelV Require Import Model.Decision Proofs.Decision Proofs.DecisionR.
+From PyxelV Require Import Model.DecisionSrc Proofs.DecisionSrc Proofs.DecisionSrcR.
+From PyxelGen Require Import Gen_C10.
 Import ListNotations.
 Local Close Scope Q_scope.
 Local Open Scope nat_scope.
@@ -103,6 +107,133 @@ Theorem C10_in_bounds_componentwise :
 Proof. exact in_bounds_nth. Qed.
 Print Assumptions C10_in_bounds_componentwise.
 
+(* ============================================================================ tied to the source
+
+   `src_desc` is what translator/c10.py read in pyxel/calibration/fitting_datatree.py and
+   pyxel/observation/parameter_values.py on THIS run: iteration in declaration order, per class of variable
+   the element / column of var.boundaries appended to the lower and upper list and how log10 is applied
+   (rebinding or in place), the slice [start, stop) that gets 10 ** and the new offset as linear forms in
+   (a, width), the index / slice handed to Processor.set, which copies are taken. *)
+
+(* the description read from the source is one of those for which the walks are the modelled walks *)
+Theorem C10_source_as_modelled : desc_ok src_desc = true.
+Proof. vm_compute. reflexivity. Qed.
+Print Assumptions C10_source_as_modelled.
+
+(* the loops of the source, interpreted, ARE the hand-written walks - for every element type, every list
+   of variables, every vector - and leave the ParameterValues objects and the caller's array as they were *)
+Theorem C10_src_walks_are_model :
+  forall (A : Type) (flog fexp : A -> A) (logdom : A -> bool) (vs : list (@var A)) (x : list A),
+    g_bounds flog logdom src_desc vs = (bounds_walk flog logdom vs, vs) /\
+    g_convert fexp (d_cv src_desc) vs x = convert_walk fexp vs x /\
+    g_convert_after fexp (d_cv src_desc) vs x = x /\
+    g_assign (d_up src_desc) vs x = assign_walk vs x.
+Proof. intros. apply src_walks_are_model. vm_compute. reflexivity. Qed.
+Print Assumptions C10_src_walks_are_model.
+
+(* C10_walks_agree, re-proved over the loops of the source *)
+Theorem C10_src_walks_agree :
+  forall (A : Type) (flog fexp : A -> A) (logdom : A -> bool) (vs : list (@var A)) lb ub x,
+    fst (g_bounds flog logdom src_desc vs) = Some (lb, ub) -> List.length x = List.length lb ->
+    snd (g_bounds flog logdom src_desc vs) = vs /\
+    List.length lb = total vs /\ List.length ub = total vs /\
+    List.length (g_convert fexp (d_cv src_desc) vs x) = total vs /\
+    exists asg, g_assign (d_up src_desc) vs (g_convert fexp (d_cv src_desc) vs x) = Some asg /\
+      List.length asg = List.length vs /\
+      forall k v, nth_error vs k = Some v ->
+        let off := offset vs k in let w := width v in
+        off + w <= total vs /\
+        offset vs (S k) = off + w /\
+        slice off w lb = var_lower flog v /\
+        slice off w ub = var_upper flog v /\
+        slice off w (g_convert fexp (d_cv src_desc) vs x) = var_convert fexp v (slice off w x) /\
+        exists val, var_value v (slice off w (g_convert fexp (d_cv src_desc) vs x)) = Some val /\
+                    nth_error asg k = Some (key v, val).
+Proof. intros A flog fexp logdom vs lb ub x. apply src_walks_agree. vm_compute. reflexivity. Qed.
+Print Assumptions C10_src_walks_agree.
+
+Theorem C10_src_log_only_on_log_slices :
+  forall (A : Type) (fexp : A -> A) (vs : list (@var A)) x,
+    total vs <= List.length x ->
+    g_convert_after fexp (d_cv src_desc) vs x = x /\
+    List.length (g_convert fexp (d_cv src_desc) vs x) = List.length x /\
+    forall j, nth_error (g_convert fexp (d_cv src_desc) vs x) j =
+              if is_log_comp vs j then option_map fexp (nth_error x j) else nth_error x j.
+Proof. intros A fexp vs x. apply src_log_only_on_log_slices. vm_compute. reflexivity. Qed.
+Print Assumptions C10_src_log_only_on_log_slices.
+
+Theorem C10_src_reported_is_applied :
+  forall (A : Type) (fexp : A -> A) (vs : list (@var A)) x,
+    List.length x = total vs ->
+    exists asg, g_assign (d_up src_desc) vs (g_convert fexp (d_cv src_desc) vs x) = Some asg /\
+                map fst asg = map key vs /\
+                flat_all asg = g_convert fexp (d_cv src_desc) vs x.
+Proof. intros A fexp vs x. apply src_reported_is_applied. vm_compute. reflexivity. Qed.
+Print Assumptions C10_src_reported_is_applied.
+
+Theorem C10_src_refusal :
+  forall (A : Type) (flog : A -> A) (logdom : A -> bool) (vs : list (@var A)),
+    fst (g_bounds flog logdom src_desc vs) = None <-> Exists (fun v => var_accept flog logdom v = false) vs.
+Proof. intros A flog logdom vs. apply src_refusal. vm_compute. reflexivity. Qed.
+Print Assumptions C10_src_refusal.
+
+Theorem C10_src_in_bounds :
+  forall (vs : list (@var R)) lb ub x,
+    fst (g_bounds log10 rpos src_desc vs) = Some (lb, ub) ->
+    (forall v n, In v vs -> islog v = true -> shape v = Some n -> positive_decl v) ->
+    Forall2 Rle lb x -> Forall2 Rle x ub ->
+    Forall2 inbox (List.concat (map declared vs)) (g_convert pow10 (d_cv src_desc) vs x).
+Proof. intros vs lb ub x. apply src_in_bounds. vm_compute. reflexivity. Qed.
+Print Assumptions C10_src_in_bounds.
+
+(* what a calibration reports (read from archipelago_datatree.py: _get_champions, get_best_individuals,
+   run_evolve; fitting_datatree.py: apply_parameters_to_processors, _apply_parameters): for the decision vector
+   x of an island the champion parameters and the parameters of a best individual are convert_to_parameters(x),
+   and the final pipeline run of the island - whose simulated outputs the result carries - is configured, key by
+   key in declaration order, with exactly the reported parameters *)
+Theorem C10_src_reporting :
+  forall (A : Type) (fexp : A -> A) (vs : list (@var A)) x,
+    List.length x = total vs ->
+    g_reported fexp (rp_champion src_report) src_desc vs x = convert_walk fexp vs x /\
+    g_reported fexp (rp_best src_report) src_desc vs x = convert_walk fexp vs x /\
+    exists asg, g_final_applied fexp src_report src_desc vs x = Some asg /\
+                map fst asg = map key vs /\
+                flat_all asg = g_reported fexp (rp_champion src_report) src_desc vs x.
+Proof. intros A fexp vs x. apply src_reporting; vm_compute; reflexivity. Qed.
+Print Assumptions C10_src_reporting.
+
+(* ============================================================================ histories on the object store
+
+   The ParameterValues objects (st_vars), the caller's processor (location 0 of st_procs) and the problems
+   built so far are shared by everything that happens later: the same Calibration is run again, get_bounds /
+   convert_to_parameters / fitness / update_processor are called any number of times in any order on any of
+   the problems.  For the effect sites the source has (which log10 is in place and on what, which copies are
+   taken), NO history changes the declaration, NO history changes a processor that existed, problems are only
+   added, and every observation is the history-free function of the declaration: in particular the box of a
+   problem built after any history is the box of the first one. *)
+Theorem C10_history_independent :
+  forall (A : Type) (flog fexp : A -> A) (logdom : A -> bool) (st : @store A) (ops : list (@op A)),
+    store_consistent flog logdom st ->
+    let r := run_hist flog fexp logdom src_desc st ops in
+    st_vars (fst r) = st_vars st /\
+    heap_extends (st_procs st) (st_procs (fst r)) /\
+    (exists new, st_pbs (fst r) = st_pbs st ++ new) /\
+    store_consistent flog logdom (fst r) /\
+    Forall2 (obs_spec flog fexp logdom (st_vars st)) ops (snd r).
+Proof. intros A flog fexp logdom st ops. apply run_hist_ok. vm_compute. reflexivity. Qed.
+Print Assumptions C10_history_independent.
+
+Theorem C10_builds_idempotent :
+  forall (A : Type) (flog fexp : A -> A) (logdom : A -> bool) (st : @store A) (ops : list (@op A))
+         i j lb1 ub1 lb2 ub2,
+    store_consistent flog logdom st ->
+    nth_error ops i = Some OBuild -> nth_error ops j = Some OBuild ->
+    nth_error (snd (run_hist flog fexp logdom src_desc st ops)) i = Some (ObBuilt lb1 ub1) ->
+    nth_error (snd (run_hist flog fexp logdom src_desc st ops)) j = Some (ObBuilt lb2 ub2) ->
+    lb1 = lb2 /\ ub1 = ub2.
+Proof. intros A flog fexp logdom st ops i j lb1 ub1 lb2 ub2. apply builds_agree. vm_compute. reflexivity. Qed.
+Print Assumptions C10_builds_idempotent.
+
 (* ---------------------------------------------------------------------------- non-vacuity *)
 
 (* a logarithmic vector with per-component boundaries BEFORE a linear scalar, then a linear vector with
@@ -149,3 +280,77 @@ Proof.
   - intros v n [<-|[<-|[]]] Hl Hs; simpl in *; try discriminate.
     unfold positive_decl, positive_pair. simpl. repeat constructor; simpl; lra.
 Qed.
+
+(* ---------------------------------------------------------------------------- descriptions and histories *)
+
+(* log10 applied IN PLACE to the columns of per-component boundaries (views of the kept array) *)
+Definition ex_desc_inplace : wdesc :=
+  mkDesc WLen
+    (mkSb (sb_scalar (d_sb desc_as_coded)) (sb_shared (d_sb desc_as_coded))
+          (mkSBranch (mkSide (SColumn 0) (LInPlace NpLog10)) (mkSide (SColumn 1) (LInPlace NpLog10))) GAlias)
+    (d_cv desc_as_coded) (d_up desc_as_coded) true true.
+
+(* ... is not an accepted description, and the model says why: the first problem is right, the declaration
+   is rewritten, and the second problem built from the same objects gets log10(log10 b) *)
+Example ex_inplace_rejected : desc_ok ex_desc_inplace = false.
+Proof. vm_compute. reflexivity. Qed.
+
+Example ex_inplace_history :
+  let st0 := mkSt [mkVar "v"%string (Some 2) true (PerComp [(Raw 1, Raw 10); (Raw 10, Raw 100)])] [[]] [] in
+  let r := run_hist s_log s_exp s_dom ex_desc_inplace st0 [OBuild; OBuild] in
+  snd r = [ObBuilt [Log 1; Log 10] [Log 10; Log 100]; ObBuilt [Bad; Bad] [Bad; Bad]] /\
+  st_vars (fst r) <> st_vars st0.
+Proof. vm_compute. split; [reflexivity|discriminate]. Qed.
+
+(* the same in-place log10 on the FRESH arrays of shared boundaries, or on a view of a COPY, is accepted *)
+Example ex_inplace_on_fresh_accepted :
+  desc_ok (mkDesc WLen
+    (mkSb (sb_scalar (d_sb desc_as_coded))
+          (mkSBranch (mkSide (SRepeat 0) (LInPlace NpLog10)) (mkSide (SRepeat 1) (LInPlace NpLog10)))
+          (mkSBranch (mkSide (SColumn 0) (LInPlace NpLog10)) (mkSide (SColumn 1) (LInPlace NpLog10))) GCopy)
+    (d_cv desc_as_coded) (d_up desc_as_coded) true true) = true.
+Proof. vm_compute. reflexivity. Qed.
+
+(* an offset that moves by 1 after a list of placeholders is not accepted *)
+Example ex_wrong_step_rejected :
+  desc_ok (mkDesc WLen (d_sb desc_as_coded)
+    (mkCv true 0 (cv_scalar (d_cv desc_as_coded)) (mkCBranch WLen lin_a lin_ab (mkLin 1 1 0)))
+    (d_up desc_as_coded) true true) = false.
+Proof. vm_compute. reflexivity. Qed.
+
+(* a history on the description of the source: two problems, bounds asked again, a vector converted, applied
+   through fitness and through update_processor: both boxes are equal, the declaration and the caller's
+   processor are as before *)
+Example ex_history_on_source :
+  let vs := [mkVar "v"%string (Some 2) true (PerComp [(Raw 1, Raw 10); (Raw 10, Raw 100)]);
+             mkVar "s"%string None false (Shared (Raw 0) (Raw 1))] in
+  let c0 := [("v"%string, AVector [Raw 0; Raw 0]); ("s"%string, AScalar (Raw 0))] in
+  let st0 := mkSt vs [c0] [] in
+  let x := [Raw 1; Raw 2; Raw (1 # 2)] in
+  let r := run_hist s_log s_exp s_dom src_desc st0
+             [OBuild; OFitness 0 x; OBuild; OBounds 1; OUpdate 1 x; OConvert 0 x] in
+  snd r = [ObBuilt [Log 1; Log 10; Raw 0] [Log 10; Log 100; Raw 1];
+           ObApplied x [Ten 1; Ten 2; Raw (1 # 2)]
+             (Some [("v"%string, AVector [Ten 1; Ten 2]); ("s"%string, AScalar (Raw (1 # 2)))]);
+           ObBuilt [Log 1; Log 10; Raw 0] [Log 10; Log 100; Raw 1];
+           ObBounds [Log 1; Log 10; Raw 0] [Log 10; Log 100; Raw 1];
+           ObApplied x [Ten 1; Ten 2; Raw (1 # 2)]
+             (Some [("v"%string, AVector [Ten 1; Ten 2]); ("s"%string, AScalar (Raw (1 # 2)))]);
+           ObConv x [Ten 1; Ten 2; Raw (1 # 2)]] /\
+  st_vars (fst r) = vs /\ nth_error (st_procs (fst r)) 0 = Some c0 /\ List.length (st_pbs (fst r)) = 2.
+Proof. vm_compute. repeat split; reflexivity. Qed.
+
+(* a result whose final runs get the decision vector instead of the reported parameters is not accepted *)
+Example ex_final_applies_decision_rejected : rp_ok (mkRp true true false true) = false.
+Proof. vm_compute. reflexivity. Qed.
+
+(* C10-F1 (repaired): with `params_array.squeeze().to_numpy()` the island's row of a declaration of total width
+   one became a 0-d array and the final application raised IndexError in update_processor; such a description is
+   not accepted, and the model says what happened: nothing was applied *)
+Example ex_bare_squeeze_rejected :
+  rp_ok (mkRp true true true false) = false /\
+  g_final_applied s_exp (mkRp true true true false) desc_as_coded
+    [mkVar "s"%string None true (Shared (Raw 1) (Raw 100))] [Raw 1] = None /\
+  g_final_applied s_exp (mkRp true true true true) desc_as_coded
+    [mkVar "s"%string None true (Shared (Raw 1) (Raw 100))] [Raw 1] = Some [("s"%string, AScalar (Ten 1))].
+Proof. vm_compute. repeat split; reflexivity. Qed.
